@@ -151,6 +151,8 @@ class Run:
                 for l in str(o["detail"]).splitlines()[:12]:
                     print(f"    | {l}")
             print(f"VIOLATION property={self.pid} replay={path}")
+        for fx in self._facts.values():
+            self.fn_analysed |= fx.accessed
         n = len(self.obls)
         ok = sum(1 for o in self.obls if o["ok"])
         rules = sorted(set(o["rule"] for o in self.obls))
